@@ -47,7 +47,7 @@ Theorem C06_resolve_singleton_perm :
   forall (R R' : list (pseudo * pseudo)) (qs qs' : list pseudo) (p : pseudo),
        Permutation R R' ->
        Permutation qs qs' ->
-       resolve R (S (length qs)) qs = p :: nil <-> resolve R' (S (length qs')) qs' = p :: nil.
+       resolve R (S (List.length qs)) qs = p :: nil <-> resolve R' (S (List.length qs')) qs' = p :: nil.
 Proof. exact OrderIndep.resolve_singleton_perm. Qed.
 
 Theorem C06_parents_of_perm :
